@@ -48,7 +48,7 @@ ASSUMPTIONS = [
 ]
 
 C32_CODES = [
-    "new", "new", "set", "set", "append", "append", "append", "remove", "replace", "replace", "clear",
+    "hand", "hand", "ucode", "new", "new", "set", "set", "append", "append", "append", "remove", "replace", "replace", "clear",
     "setparent", "setparent", "clearparent", "tagadd", "tagadd", "tagremove", "pk", "pk", "fav",
     "delete", "delete", "delete", "merge", "flush", "commit", "commit", "rollback", "expire", "read",
 ]
